@@ -7,6 +7,7 @@ package sources outside /repo and /verif; the copy is removed straight afterward
 whose anchor text is not found in the current source is skipped and reported.  Self-validation
 results are evidence about the checker; they never turn into a VIOLATION of the property.
 """
+import ast
 import json
 import os
 import shutil
@@ -77,6 +78,82 @@ def run_entry(args):
         shutil.rmtree(d, ignore_errors=True)
 
 
+class _Renamer(ast.NodeTransformer):
+    def __init__(self, names):
+        self.names = names
+
+    def visit_Name(self, n):
+        if n.id in self.names:
+            n.id = n.id + "_v"
+        return n
+
+    def visit_ExceptHandler(self, n):
+        if n.name in self.names:
+            n.name = n.name + "_v"
+        self.generic_visit(n)
+        return n
+
+
+def _transform_tree(kind, tree):
+    if kind == "rename-locals":
+        for fn in ast.walk(tree):
+            if isinstance(fn, ast.FunctionDef):
+                params = {a.arg for a in fn.args.args + fn.args.kwonlyargs + fn.args.posonlyargs}
+                if fn.args.vararg:
+                    params.add(fn.args.vararg.arg)
+                if fn.args.kwarg:
+                    params.add(fn.args.kwarg.arg)
+                stored = set()
+                for n in ast.walk(fn):
+                    if isinstance(n, ast.Name) and isinstance(n.ctx, (ast.Store, ast.Del)):
+                        stored.add(n.id)
+                    if isinstance(n, ast.ExceptHandler) and n.name:
+                        stored.add(n.name)
+                _Renamer(stored - params).visit(fn)
+    return tree
+
+
+def run_global_benign(args):
+    """Whole-package behaviour-preserving transformations generated from the current source:
+    'reformat' (ast round trip: layout, comments, parentheses, quotes) and 'rename-locals'
+    (every local variable of every function renamed).  All rules of the property must give the
+    same verdict as on the untouched source."""
+    kind, prop, repo_root = args
+    from .model import Repo
+    from . import props, report
+    d = tempfile.mkdtemp(prefix="cgslint_benign_", dir=_scratch_base())
+    try:
+        src = os.path.join(repo_root, PACKAGE)
+        dst = os.path.join(d, PACKAGE)
+        shutil.copytree(src, dst, ignore=shutil.ignore_patterns("tests", "__pycache__", "*.pyc"))
+        for f in os.listdir(dst):
+            if f.endswith(".py"):
+                p = os.path.join(dst, f)
+                with open(p) as fh:
+                    tree = ast.parse(fh.read())
+                tree = _transform_tree(kind, tree)
+                with open(p, "w") as fh:
+                    fh.write(ast.unparse(tree) + "\n")
+        repo = Repo(d)
+        known = report.load_known()
+        out = {"kind": kind, "new_failures": [], "errors": []}
+        for rname in props.PROPERTIES[prop]["rule_names"]:
+            try:
+                obs = props.R[rname](repo, "quick")
+            except AnalysisError as err:
+                out["errors"].append("%s: %s" % (rname, str(err)[:160]))
+                continue
+            except Exception as err:
+                out["errors"].append("%s: internal %s: %s" % (rname, type(err).__name__, str(err)[:160]))
+                continue
+            for o in obs:
+                if not o.ok and not report.is_known(known, prop, o):
+                    out["new_failures"].append("%s:%s %s" % (o.oid, o.instance, o.construct[:80]))
+        return out
+    finally:
+        shutil.rmtree(d, ignore_errors=True)
+
+
 def run_for(prop, repo_root, jobs=None):
     from . import props
     spec = props.PROPERTIES[prop]
@@ -90,8 +167,9 @@ def run_for(prop, repo_root, jobs=None):
     else:
         with ProcessPoolExecutor(max_workers=jobs) as ex:
             results = list(ex.map(run_entry, [(e, repo_root) for e in corpus]))
+    glob = [run_global_benign((k, prop, repo_root)) for k in ("reformat", "rename-locals")]
     by_id = {r["id"]: r for r in results}
-    out = {"breaking_total": 0, "breaking_fired": 0, "benign_total": 0, "benign_silent": 0, "skipped": 0, "problems": [], "details": []}
+    out = {"global_benign": glob, "breaking_total": 0, "breaking_fired": 0, "benign_total": 0, "benign_silent": 0, "skipped": 0, "problems": [], "details": []}
     for e in corpus:
         r = by_id[e["id"]]
         rec = {"id": e["id"], "rule": e["rule"], "kind": e["kind"], "status": r["status"], "note": e.get("note", ""),
@@ -116,6 +194,12 @@ def run_for(prop, repo_root, jobs=None):
                 out["benign_silent"] += 1
             else:
                 out["problems"].append("%s (%s): benign edit reported (%s %s)" % (e["id"], e["rule"], r["status"], r.get("obligations", r.get("why", ""))))
+    for g in glob:
+        out["benign_total"] += 1
+        if not g["new_failures"] and not g["errors"]:
+            out["benign_silent"] += 1
+        else:
+            out["problems"].append("global benign transformation '%s' changed the verdict: %s" % (g["kind"], (g["new_failures"] + g["errors"])[:3]))
     return out
 
 
